@@ -348,4 +348,44 @@ def r5_readout_replace_complete(ctx):
         ctx.check(okk, f.qual + f"#{k}", f"carries {k} from {src}" if okk else f"the derived readout does not carry the current `{k}` (falls back to the constructor default)", where=f, node=rets[0])
 
 
-RULES = [r5_readout_replace_complete, r1_fresh_copy_per_run, r2_copy_is_what_runs, r3_deepcopy_completeness, r4_shared_inputs_read_only]
+def r6_set_stores_fresh_sequences(ctx):
+    """Processor.set with conversion: a sequence value is stored as a NEW list built element by element, never as the caller's own list object (a per-run copy would otherwise share the list with the caller's pipeline and with every other run).  Decided per path (sa/paths.py)."""
+    from sa.paths import enumerate_paths
+
+    st = ctx.func(f"{PROC}.set")
+    vp = st.params[2] if len(st.params) > 2 else "value"
+    n = 0
+    for q in enumerate_paths(st.node.body):
+        if q.exit == "raise":
+            continue
+        seq = any(pol and "Sequence" in t and f"isinstance({vp}," in t for t, pol in q.cond_texts())
+        conv = q.holds("convert_value")
+        if not seq or conv is False:
+            continue
+        stored = [e.value for e in q.effects if e.kind == "store"] + [c.args[2] for fn_, c, _ in q.calls if fn_ == "setattr" and len(c.args) == 3]
+        for v in stored:
+            n += 1
+            fresh = isinstance(v, (ast.ListComp, ast.List)) or (isinstance(v, ast.Call) and call_name(v) in ("list", "tuple", "copy.deepcopy", "deepcopy"))
+            ctx.check(fresh, st.qual + "#fresh-sequence", "a sequence value is stored as a newly built list" if fresh else f"on the path {q.cond_texts()} the caller's own sequence object `{norm(v)[:60]}` is stored: run copies and the caller's pipeline share it", where=st, node=q.exit_node or st.node)
+    ctx.floor(n, 1)
+
+
+def r7_no_shared_class_state(ctx):
+    """No class of the package holds a mutable container as a CLASS attribute (`_memory: dict = {}` in the class body): such an object is shared by every instance and is not duplicated by deepcopy, so runs would see each other's detector memory."""
+    n = 0
+    for q, ci in sorted(ctx.repo.classes.items()):
+        if ci.module.name in DEPRECATED:
+            continue
+        for name, val in ci.consts.items():
+            n += 1
+            mutable = isinstance(val, (ast.Dict, ast.List, ast.Set, ast.ListComp, ast.DictComp, ast.SetComp)) or (isinstance(val, ast.Call) and call_name(val).split(".")[-1] in ("dict", "list", "set", "defaultdict", "OrderedDict", "deque", "Counter", "bytearray"))
+            if mutable:
+                ctx.fail(f"{q}.{name}", f"class attribute `{name} = {norm(val)[:40]}` is ONE mutable object shared by every instance and every deep copy of {ci.name}: state kept in it leaks between runs and into the caller's objects", where=ci, node=val)
+    ctx.check(True, "pyxel#class-attributes", f"{n} class-level attributes inspected, none is a mutable container", where=ctx.repo.module("pyxel.detectors.detector"))
+
+
+FIXTURES = {
+    "r7_no_shared_class_state": {"dir": "c06_r7", "expect_construct": "_memory"},
+}
+
+RULES = [r6_set_stores_fresh_sequences, r7_no_shared_class_state, r5_readout_replace_complete, r1_fresh_copy_per_run, r2_copy_is_what_runs, r3_deepcopy_completeness, r4_shared_inputs_read_only]
